@@ -412,6 +412,24 @@ def bfs(eng, expand, inits, max_depth, label=lambda op: op, state_cap=None):
             "unexpanded_at_bound": len(frontier)}
 
 
+def scenarios(eng, fn, own_property_covers=None):
+    """build scenario states with fn() while collecting scenario failures (a set-up command of the real tool that does
+    not give the exit code the scenario needs).  own_property_covers(failure) -> Viol | None turns a failure into a
+    violation when the failing step contradicts the check's own property; every other failure only skips that
+    scenario (listed in the evidence).  When nothing is left to explore the check stops with a harness error."""
+    from . import ops
+    with ops.collecting() as fails:
+        out = fn()
+    fails = list(fails)
+    for f in fails:
+        v = own_property_covers(f) if own_property_covers else None
+        if v is not None:
+            eng.add_viols([v])
+        else:
+            eng.notes.setdefault("skipped_scenarios", []).append(str(f)[:300])
+    return out
+
+
 def selftest(eng):
     """'own every source of nondeterminism, then prove you do': the same short sequence twice in two
     fresh scratch roots must give byte-identical trees; also the reference digests' known answers."""
